@@ -49,8 +49,10 @@ Variable root_attrs : list (N * cdata).
 Definition Known04a (w : world) (o : op) : bool :=
   match o with
   | OpRemoveFile _ _ => late_short T w
-  (* a copy of a source with a SHORT-NAME element that is not in front (only reachable through another class of Known04) *)
-  | OpCopy _ _ | OpCopyAt _ _ _ => Known04 T LATEST w o || late_short T w
+  (* copies: K04-front at the destination; a source with a SHORT-NAME element that is not in front (only reachable through
+     another class of Known04).  The static class copy_container of Known04 is replaced by the collision test of copy_clean_b *)
+  | OpCopy h other => front T LATEST w h (nm_of w other) None || late_short T w
+  | OpCopyAt h other pos => front T LATEST w h (nm_of w other) (Some pos) || late_short T w
   | _ => Known04 T LATEST w o
   end.
 
@@ -75,8 +77,9 @@ Definition copy_clean_a (w w' : world) (h c : id) : bool :=
   end.
 
 (* copies, what remains after the conditions that follow from the source world are discharged (Tree/IndexProofsCopyB.v):
-   nobody twice in the walk of the copy, no two identifiable elements of the copy with one path, no identifiable element inside a
-   copy that is not identifiable itself (finding C04-copy-container-duplicates-paths) *)
+   nobody twice in the walk of the copy, no two identifiable elements of the copy with one path, and - when the copy is not
+   identifiable itself, so that no unique name is chosen - no path of an identifiable element inside it is already in the index of
+   the destination's model (finding C04-copy-container-duplicates-paths; a copy into another model, as in duplicate, is fine) *)
 Definition copy_clean_b (w w' : world) (h c : id) : bool :=
   match w_nodes w h with
   | Some nh =>
@@ -85,7 +88,17 @@ Definition copy_clean_b (w w' : world) (h c : id) : bool :=
       let w3 := mkWorld (fun j => if j =? h then Some nh else w_nodes w' j) (w_next w') (w_files w') (w_models w') in
       let ids := walk (fuel_of w') w' c in
       match reg_entries T (fuel_of w') w3 path c with
-      | Some (L, R) => nodupN ids && nodupb (map fst L) && (identifiable T w' c || is_empty L)
+      | Some (L, R) =>
+        nodupN ids && nodupb (map fst L)
+        && (identifiable T w' c ||
+            match model_of h w with
+            | Val (OK m, _) =>
+              match model_at w m with
+              | Some x => forallb (fun e => match assoc_get (fst e) (m_idents x) with None => true | Some _ => false end) L
+              | None => false
+              end
+            | _ => false
+            end)
       | None => false
       end
     | _ => false
